@@ -61,7 +61,7 @@ def build(suite, info):
         def impl():
             return ok(str(int(tok)))
         return Case(suite, req("pyint", enc_str(tok)), impl, None, cls="pyint", info=info)
-    if suite == "argv":
+    if suite in ("argv", "dashdash"):
         return argv_case(info)
     raise ValueError("unknown suite " + suite)
 
@@ -200,8 +200,8 @@ def argv_case(info):
             if type(e).__name__ == "ArgumentTypeError":
                 return "REJECT"
             raise
-    return Case("argv", req("validate", enc_str(name), enc_str(tok)), impl, oracle,
-                cls=tool + ":" + (argv[0] if argv else ""), info=info)
+    return Case(info.get("suite", "argv"), req("validate", enc_str(name), enc_str(tok)), impl, oracle,
+                cls=info.get("cls") or (tool + ":" + (argv[0] if argv else "")), info=info)
 
 
 GRAPH_OK = {"simple": [["complete", "4"], ["grid", "2", "3"], ["gnp", "5", ".5"], ["gnm", "5", "4"], ["gnd", "6", "3"],
@@ -268,7 +268,7 @@ def gen_argv(rng, helpers_spec, tier):
     for name, shp in shapes.items():
         if isinstance(shp, int):
             combos = []
-            for _ in range(12 if tier == "quick" else 60):
+            for _ in range(5 if tier == "quick" else 40):
                 combos.append([rng.choice(nums) for _ in range(shp + rng.choice([0, 0, 0, 1, -1]) if shp else 0)])
             shp = combos + [[], ["-h"]]
         for a in shp:
@@ -281,7 +281,7 @@ def gen_argv(rng, helpers_spec, tier):
     for name, (gt, pre) in gcmd.items():
         for g in GRAPH_OK[gt]:
             out.append([name] + pre + g)
-        for g in rng.sample(GRAPH_BAD, 6 if tier == "quick" else len(GRAPH_BAD)):
+        for g in rng.sample(GRAPH_BAD, 3 if tier == "quick" else len(GRAPH_BAD)):
             out.append([name] + pre + g)
         # unreadable input / unwritable output, for every kind of graph argument (always)
         for g in (["kthlist", "/"], ["/.gml"], ["dimacs", "/nonexistent-dir/g"], GRAPH_OK[gt][0] + ["save", "kthlist", "/"],
@@ -294,7 +294,7 @@ def gen_argv(rng, helpers_spec, tier):
     odd = odd_graph_files()
     gcmd2 = dict(gcmd, op=("simple", []), tseitin=("simple", ["random"]), subsetcard=("bipartite", []))
     for name, (gt, pre) in gcmd2.items():
-        paths = odd[gt] if tier != "quick" else rng.sample(odd[gt], 5)
+        paths = odd[gt] if tier != "quick" else rng.sample(odd[gt], 3)
         for pth in paths:
             out.append([name] + pre + [pth])
         out.append([name] + pre + [{"simple": "kthlist", "dag": "kthlist", "bipartite": "matrix"}[gt], odd[gt][0]])
@@ -346,7 +346,7 @@ def cases(ctx):
         for tool in ("cnfgen", "pbgen"):
             if tool == "pbgen" and "-T" in argv:
                 continue
-            if tool == "pbgen" and tier == "quick" and rng.random() > 0.35:
+            if tool == "pbgen" and tier == "quick" and rng.random() > 0.12:
                 continue
             out.append(argv_case({"tool": tool, "argv": argv}))
     # mutational fuzz: valid command lines with one or two random edits (token deleted / duplicated / inserted /
@@ -358,7 +358,7 @@ def cases(ctx):
                   ["--seed", "3", "randkcnf", "3", "5", "4", "-T", "lift", "2"], ["op", "4", "--total", "-T", "or", "2"],
                   ["peb", "pyramid", "2", "-T", "xorcomp", "3", "2"], ["-of", "opb", "--varnames", "count", "4", "2"],
                   ["subgraph", "-G", "complete", "4", "-H", "complete", "2"], ["stone", "2", "path", "3", "--sparse", "1"]]
-    for _ in range(150 if tier == "quick" else 4000):
+    for _ in range(50 if tier == "quick" else 2500):
         a = list(rng.choice(seeds_argv))
         for _e in range(rng.choice([1, 1, 2])):
             k = rng.randrange(4)
@@ -383,6 +383,13 @@ def cases(ctx):
     for argv, txt in ([[], kth], [["-q"], kth], [["xor", "2"], kth], [[], ""], [[], "2\n1 : 2 0\n2 : 0\n"], [[], "x"],
                       [["nosuch"], kth], [["lift", "0"], kth]):
         out.append(argv_case({"tool": "kthlist2pebbling", "argv": argv, "stdin": txt}))
+    # finding C18-F1 (reported by the argparse model of C17): under CPython 3.12.1 `_get_values` drops a `--` from the
+    # strings of EVERY action, so an argument whose only string is a second `--` receives the empty LIST; the
+    # generator raises TypeError, which cli() does not shield.  Always exercised; recorded as a known finding.
+    for tool in ("cnfgen", "pbgen"):
+        for a in (["bphp", "--", "3", "--"], ["cpls", "--", "2", "--", "2"], ["stone", "2", "pyramid", "2", "--sparse=--"],
+                  ["php", "--", "3"], ["bphp", "3", "--", "2"]):
+            out.append(argv_case({"tool": tool, "argv": a, "suite": "dashdash", "cls": "dashdash:second-double-dash"}))
     # real processes: exit status and error stream (the part a model cannot exhibit)
     out.append(process_case(rng, tier))
     return out
